@@ -10,7 +10,7 @@ import (
 
 // Noise kinds: the per-field mutation lattice of DESIGN.md C09. NoiseCount(kind, len) tells how many
 // variants a base reply of the given length has; NoiseApply returns variant #arg.
-var NoiseKinds = []string{"truncate", "version", "ihl", "total-length", "protocol", "icmp-type", "l4-offset", "tcp-opt-len", "oversize", "quoted-ihl", "quoted-proto", "quoted-version", "quoted-length", "garbage-payload", "sack-opt-len"}
+var NoiseKinds = []string{"truncate", "version", "ihl", "total-length", "protocol", "icmp-type", "l4-offset", "tcp-opt-len", "oversize", "quoted-ihl", "quoted-proto", "quoted-version", "quoted-length", "garbage-payload", "sack-opt-len", "quoted-icmp-type"}
 
 func l4off(b []byte) int {
 	if len(b) == 0 {
@@ -46,9 +46,14 @@ func NoiseCount(kind string, b []byte) int {
 		return 255 // every flag byte except SYN|ACK itself
 	case "sack-opt-len":
 		return 7
+	case "quoted-icmp-type":
+		return len(quotedICMPTypes)
 	}
 	return 0
 }
+
+var quotedICMPTypes = []byte{3, 5, 11, 12, 13, 0}
+var quotedICMPTypes6 = []byte{1, 2, 3, 4, 129, 135}
 
 // NoiseLabel is the human label of variant arg (bucketed: it is part of finding keys).
 func NoiseLabel(kind string, b []byte, arg int) string {
@@ -243,6 +248,42 @@ func NoiseApply(kind string, b []byte, arg int) []byte {
 		}
 		if !found {
 			return nil
+		}
+	case "quoted-icmp-type":
+		// an ICMP error whose quoted datagram is an ICMP message of another type than the echo request the run sent
+		// (IPv4: 3, 5, 11, 12, 13, 0; the quote is otherwise untouched, outer checksum recomputed)
+		if (proto != 1 && proto != 58) || len(o) < lo+8 {
+			return nil
+		}
+		q := lo + 8
+		qproto, qhl := byte(0), 0
+		if v6 {
+			if len(o) < q+40 {
+				return nil
+			}
+			qproto, qhl = o[q+6], 40
+		} else {
+			if len(o) < q+20 {
+				return nil
+			}
+			qproto, qhl = o[q+9], int(o[q]&0x0f)*4
+		}
+		if (qproto != 1 && qproto != 58) || len(o) < q+qhl+8 {
+			return nil
+		}
+		if t := o[lo]; !(t == 11 || t == 3) && !(v6 && (t == 3 || t == 1)) {
+			return nil
+		}
+		o[q+qhl] = quotedICMPTypes[arg]
+		if v6 {
+			o[q+qhl] = quotedICMPTypes6[arg]
+			o[lo+2], o[lo+3] = 0, 0
+			src, _ := netip.AddrFromSlice(o[8:24])
+			dst, _ := netip.AddrFromSlice(o[24:40])
+			binary.BigEndian.PutUint16(o[lo+2:], refcodec.L4Checksum(src, dst, 58, o[lo:]))
+		} else {
+			o[lo+2], o[lo+3] = 0, 0
+			binary.BigEndian.PutUint16(o[lo+2:], refcodec.Checksum(o[lo:]))
 		}
 	case "sack-opt-len":
 		// the SACK option keeps its complete blocks and grows by arg+1 (1..7) stray bytes - a partial trailing block - with
